@@ -49,6 +49,7 @@ type c07Op struct {
 	wantBytes []byte
 	wantValue reflect.Value
 	wantErr   bool
+	byValue   bool // Marshal(nil, v) instead of Marshal(nil, &v)
 }
 
 type c07Result struct {
@@ -63,10 +64,14 @@ func c07RunOp(p *plenc.Plenc, cfg model.Cfg, op *c07Op, pkgLevel bool) string {
 		var out []byte
 		var err error
 		pn := core.Guard(func() {
+			arg := ptrTo(op.value)
+			if op.byValue {
+				arg = op.value.Interface()
+			}
 			if pkgLevel {
-				out, err = plenc.Marshal(nil, ptrTo(op.value))
+				out, err = plenc.Marshal(nil, arg)
 			} else {
-				out, err = p.Marshal(nil, ptrTo(op.value))
+				out, err = p.Marshal(nil, arg)
 			}
 		})
 		if pn != "" {
@@ -246,6 +251,116 @@ func c07BigTable(c *core.Ctx, idx int) {
 	}
 }
 
+// c07Steady: steady-state use of one long-lived instance: a few hundred top-level types (generated,
+// plus structs whose only field is a pointer or a map, which Marshal receives by value inside the
+// interface word), all codecs built beforehand, then 8-16 free-running goroutines that marshal (by
+// pointer and by value) and unmarshal values of randomly chosen types and compare every result with
+// what a reference instance returned sequentially.
+func c07Steady(c *core.Ctx, idx int) {
+	rec := c.Rec
+	r := c.Rand(idx)
+	cfg := instCfgs()[idx%4]
+	name := cfgName(cfg)
+	tg := &gen.TG{R: r, C: cfg, Lib: true}
+	var typs []reflect.Type
+	seen := map[reflect.Type]bool{}
+	for len(typs) < 260 {
+		t := tg.Top(2)
+		if !seen[t] && !cfg.Repeated(t, "") {
+			seen[t] = true
+			typs = append(typs, t)
+		}
+	}
+	for _, t := range c07DirectTypes() {
+		typs = append(typs, t)
+	}
+	ref, p := instNew(cfg), instNew(cfg)
+	nworkers := 8 + r.IntN(9)
+	ops := make([][]*c07Op, nworkers)
+	nops := 0
+	for w := range ops {
+		for i := 0; i < 160; i++ {
+			t := typs[r.IntN(len(typs))]
+			if i%4 == 0 {
+				t = typs[len(typs)-1-r.IntN(len(c07DirectTypes()))]
+			}
+			op := &c07Op{kind: r.IntN(3) % 2, typ: t, byValue: r.IntN(2) == 0}
+			v := (&gen.VG{R: r, C: cfg, Budget: 30}).Value(t, "")
+			data, err := ref.Marshal(nil, ptrTo(v))
+			op.value, op.wantBytes, op.wantErr = v, data, err != nil
+			if op.kind == 1 {
+				op.data = data
+				tv := reflect.New(t)
+				err := ref.Unmarshal(data, tv.Interface())
+				op.wantValue, op.wantErr = tv.Elem(), err != nil
+			}
+			ops[w] = append(ops[w], op)
+			nops++
+		}
+	}
+	// every codec exists before the goroutines start
+	for _, t := range typs {
+		if _, err := p.CodecForType(t); err != nil {
+			rec.Violation("concurrent-result", fmt.Sprintf("[%s] CodecForType(%s): %v", name, typeString(t), err), nil)
+			return
+		}
+	}
+	var mu sync.Mutex
+	var fail string
+	var wg sync.WaitGroup
+	start := make(chan struct{})
+	for w := range ops {
+		wg.Add(1)
+		go func(w int) {
+			defer wg.Done()
+			<-start
+			for k := 0; k < 6*len(ops[w]); k++ {
+				i := k % len(ops[w])
+				op := ops[w][i]
+				if d := c07RunOp(p, cfg, op, false); d != "" {
+					mu.Lock()
+					if fail == "" {
+						how := ""
+						if op.kind == 0 && op.byValue {
+							how = " by value"
+						}
+						fail = fmt.Sprintf("goroutine %d op %d (%s%s %s): %s", w, i, []string{"Marshal", "Unmarshal"}[op.kind], how, typeString(op.typ), d)
+					}
+					mu.Unlock()
+					return
+				}
+			}
+		}(w)
+	}
+	close(start)
+	wg.Wait()
+	rec.Eval(6 * nops)
+	rec.Count("steady_state_trials", 1)
+	rec.NonTrivial(core.Hash64("steady", name, fmt.Sprint(idx)))
+	if fail != "" {
+		rec.Violation("concurrent-result", fmt.Sprintf("[%s] %d goroutines on a long-lived instance with %d top-level types, all codecs built beforehand: %s", name, nworkers, len(typs), fail), map[string]any{"config": name, "goroutines": nworkers, "types": len(typs)})
+	}
+}
+
+// c07DirectTypes: structs that Go stores directly in an interface word
+func c07DirectTypes() []reflect.Type {
+	T := reflect.TypeOf
+	return []reflect.Type{
+		T(struct {
+			P *types.Leaf `plenc:"1"`
+		}{}),
+		T(struct {
+			M map[string]int `plenc:"2"`
+		}{}),
+		T(struct {
+			P *int64 `plenc:"3"`
+		}{}),
+		T(struct {
+			P *types.Tree `plenc:"1"`
+		}{}),
+	}
+}
+
 func c07Case(c *core.Ctx, idx int) {
 	if c.Lane == "systematic" {
 		c07Systematic(c, idx)
@@ -253,6 +368,10 @@ func c07Case(c *core.Ctx, idx int) {
 	}
 	if idx%397 == 5 {
 		c07BigTable(c, idx)
+		return
+	}
+	if idx%199 == 3 {
+		c07Steady(c, idx)
 		return
 	}
 	rec := c.Rec
